@@ -1,4 +1,8 @@
 -- Root of the `RactorModel` library: every model, lemma and property module.
 import RactorModel.Extracted
 import RactorModel.Props.C18
+import RactorModel.Props.C10
+import RactorModel.Props.C09
+import RactorModel.Props.C08
 import RactorModel.Props.C16
+import RactorModel.Props.C20
